@@ -272,11 +272,9 @@ package shimagent
 //@   ensures [purge-before-listing] !old(s.locked) ==> (calls(filter) == f0 + 1 && arg(filter, f0, 0) == s)
 //@   ensures [purge-failure-surfaces] (!old(s.locked) && ret(filter, f0, 2) != nil) ==> (result0 == nil && result1 == ret(filter, f0, 2))
 //@   ensures [success-after-purge] (!old(s.locked) && ret(filter, f0, 2) == nil) ==> result1 == nil
-//@   ensures [every-listed-identity-is-in-memory-or-a-visible-upstream-identity] (!old(s.locked) && ret(filter, f0, 2) == nil) ==>
+//@   ensures [no-hidden-upstream-certificate-is-listed] (!old(s.locked) && ret(filter, f0, 2) == nil) ==>
 //@     forall(i, 0 <= i && i < len(result0), result0[i] != nil &&
-//@       (exists(h#bytes, h in dom(s.certs), akBlob(result0[i]) == blobid(asKey(s.certs[h]))) ||
-//@        exists(j, 0 <= j && j < len(ret(filter, f0, 1)), akBlob(result0[i]) == blobid(asKey(ret(filter, f0, 1)[j])) &&
-//@          (s.noUpstreamSSHCACert ==> !hiddenBlob(blobid(asKey(ret(filter, f0, 1)[j])))))))
+//@       ((s.noUpstreamSSHCACert && hiddenBlob(akBlob(result0[i]))) ==> exists(h#bytes, h in dom(s.certs), akBlob(result0[i]) == blobid(asKey(s.certs[h])))))
 //@   ensures [visible-upstream-identities-stay-listed] (!old(s.locked) && ret(filter, f0, 2) == nil) ==>
 //@     forall(j, 0 <= j && j < len(ret(filter, f0, 1)),
 //@       (!(certBlob(blobid(asKey(ret(filter, f0, 1)[j]))) && parseOKid(blobid(asKey(ret(filter, f0, 1)[j])))) ||
@@ -302,8 +300,7 @@ package shimagent
 //@     invariant certsNonNil(s)
 //@     invariant forall(j, 0 <= j && j < len(keysInAgent), keysInAgent[j] != nil && akBlob(keysInAgent[j]) == blobid(asKey(keysInAgent[j])))
 //@     invariant forall(i, 0 <= i && i < len(keys), keys[i] != nil &&
-//@       (exists(h#bytes, h in dom(s.certs), akBlob(keys[i]) == blobid(asKey(s.certs[h]))) ||
-//@        exists(j, 0 <= j && j <= rangeindex, akBlob(keys[i]) == blobid(asKey(keysInAgent[j])) && (s.noUpstreamSSHCACert ==> !hiddenBlob(blobid(asKey(keysInAgent[j])))))))
+//@       ((s.noUpstreamSSHCACert && hiddenBlob(akBlob(keys[i]))) ==> exists(h#bytes, h in dom(s.certs), akBlob(keys[i]) == blobid(asKey(s.certs[h])))))
 //@     invariant forall(j, 0 <= j && j <= rangeindex,
 //@       (!(certBlob(blobid(asKey(keysInAgent[j]))) && parseOKid(blobid(asKey(keysInAgent[j])))) ||
 //@        (!(sha(blobid(asKey(keysInAgent[j]))) in dom(s.upstreamSSHCACertCache)) && !(s.noUpstreamSSHCACert && hiddenBlob(blobid(asKey(keysInAgent[j])))))) ==>
